@@ -4,11 +4,12 @@ HEADER = """C07 — Traversal callbacks see every reachable edge once; filters e
    of C04/C05/C09/C10 is stated for an arbitrary pure `accept` and concludes IsPath/good_edge, i.e. every returned
    edge satisfies accept, and reachability is Reach in the graph of accepted edges only; the *_exhaustive theorems
    say the visited set is exactly that reachable set."""
-REQUIRES = ["From Gdsl.Model Require Import Spec Callback.", "From Gdsl.Proofs Require Import Worklist Descend Order SearchGlue."]
+REQUIRES = ["From Gdsl.Model Require Import Spec Callback SearchFind.", "From Gdsl.Proofs Require Import Worklist Descend Order SearchGlue SearchFindProof."]
 PINS = [
  ("c07_foreach_once_bfs_pfs", "wlq_foreach_once", "breadth-/priority-first without target: the closure is handed exactly the adjacency entries of the reachable nodes, each once (Permutation), oriented from the expanded node, with stored values"),
  ("c07_foreach_once_dfs", "dfs_foreach_once", "depth-first without target: same"),
  ("c07_foreach_once_orderings", "descend_foreach_once", "preorder and postorder: same"),
+ ("c07_search_entry_point_same_closure_calls", "find_machine_agrees", "the search() entry points run separate loops in the code (model/SearchFind.v); for EVERY closure they end with the same callback state — hence hand the closure exactly the same edges in the same order — and the same visited set as search_path(), so the statements above and below hold for search() too"),
  ("c07_filter_bfs_pfs", "wlq_exhaustive", "with a pure filter: the recorded tree consists of accepted edges only and the visited nodes are exactly those reachable through accepted edges"),
  ("c07_filter_dfs", "dfs_exhaustive", "depth-first: same"),
  ("c07_filter_orderings", "order_edges_tree", "orderings: only accepted edges, exactly the nodes reachable through accepted edges"),
